@@ -1,6 +1,7 @@
 package props
 
 import (
+	"fmt"
 	"go/ast"
 	"go/token"
 	"go/types"
@@ -15,7 +16,7 @@ import (
 func init() {
 	register(&Spec{ID: "C17", Title: "Connection descriptions round-trip and never crash the parser", Run: runC17,
 		Meta: core.Meta{
-			Explanation: "Totality and rejection clauses of the property; round-trip equality is not decided. R17.1 (E-LEN): every slice/string index and slice expression in the functions reachable from dsn.Parse, ParseURI, ParseSimple, FormatURI, FormatSimple and FromEnv is proved in range from length facts (dominating len tests, `!= \"\"`, strings.Split/SplitN post-conditions, range/induction patterns) or is a listed reviewed invariant whose guard is re-checked; anything else is a violation (user-supplied DSN text can reach it). R17.2: in both parsers every setValue call is preceded by a comma-ok lookup of the key in the tag-to-field map whose !ok edge returns a non-nil error, and the looked-up field is the one set. R17.3 (E-CONST): the reflect.Kind case sets of setValue and of the formatters agree and setValue's default arm returns an error. R17.4: TagToField never registers the empty string as a key (every map update whose key comes from a split tag is guarded by key != \"\"), so an empty key cannot match a field. R17.5: in ParseURI the value used for a repeated query key is the LAST element of its value list (values[len(values)-1]). R17.6: every iteration of ParseSimple over a key=value part reaches the key lookup or returns an error (no shortcut, e.g. for empty values, skips the unknown-key test and the assignment).",
+			Explanation: "Totality and rejection clauses of the property; round-trip equality is not decided. R17.1 (E-LEN): every slice/string index and slice expression in the functions reachable from dsn.Parse, ParseURI, ParseSimple, FormatURI, FormatSimple and FromEnv is proved in range from length facts (dominating len tests, `!= \"\"`, strings.Split/SplitN post-conditions, range/induction patterns) or is a listed reviewed invariant whose guard is re-checked; anything else is a violation (user-supplied DSN text can reach it). R17.2: in both parsers every setValue call is preceded by a comma-ok lookup of the key in the tag-to-field map whose !ok edge returns a non-nil error, and the looked-up field is the one set. R17.3 (E-CONST): the reflect.Kind case sets of setValue and of the formatters agree and setValue's default arm returns an error. R17.4: TagToField never registers the empty string as a key (every map update whose key comes from a split tag is guarded by key != \"\"), so an empty key cannot match a field. R17.5: in ParseURI the value used for a repeated query key is the LAST element of its value list (values[len(values)-1]). R17.7: ParseSimple only strips the surrounding quotes, so FormatSimple must put a string member between quotes unchanged: every use of the member's text in FormatSimple is fmt.Sprintf(\"%q\", s) or strconv.Quote(s) (identity on printable text without quotes and backslashes, non-ASCII included) or a plain concatenation with quote characters; %+q / QuoteToASCII and anything else is rejected. R17.8: tagToField never makes a registration conditional on the name being absent from the map (formatters use the json-only map, parsers the multiref map; both must resolve a repeated name to the last registered member). R17.6: every iteration of ParseSimple over a key=value part reaches the key lookup or returns an error (no shortcut, e.g. for empty values, skips the unknown-key test and the assignment).",
 			NotDecided:  "Round-trip equality, alias precedence in the simple form and panics inside package reflect for targets that lack the four tags ParseURI hard-codes are not decided.",
 			Assumptions: []string{"strings.Split(s, sep) with a non-empty separator returns at least one element; strings.SplitN(s, sep, 2) one or two", "url.Values entries are non-empty slices (net/url only creates entries by appending)"},
 		}})
@@ -29,6 +30,10 @@ func runC17(r *core.Run) {
 	r.Rule("R17.4", "the empty string is never a registered key", 2, false)
 	r.Rule("R17.6", "every key=value part of a simple DSN is looked up (no part is skipped before the unknown-key test)", 1, false)
 	r.Rule("R17.5", "the last value of a repeated URI query key wins", 1, false)
+	r.Rule("R17.7", "FormatSimple quotes strings with an idiom that ParseSimple's unquoting inverts over the documented alphabet", 1, false)
+	r.Rule("R17.8", "a name registered twice resolves the same way in every mode of the tag map (the last registration wins)", 1, false)
+	defer c17Quote(r)
+	defer c17TagLastWins(r)
 
 	var roots []*ssa.Function
 	for _, n := range []string{"Parse", "ParseURI", "ParseSimple", "FormatURI", "FormatSimple", "FromEnv", "TagToField"} {
@@ -411,4 +416,115 @@ func c17EveryPart(r *core.Run) {
 		}
 	})
 	r.Check(good, "R17.6", key, lk.Pos(), "no path through an iteration bypasses ttf[key]", "an iteration over a key=value part can complete without the key being looked up: such a part (e.g. one with an empty value) is accepted even if its key matches no field, and it does not override an earlier occurrence")
+}
+
+// c17Quote: R17.7.
+func c17Quote(r *core.Run) {
+	p := r.Prog
+	fn := p.Func("dsn", "", "FormatSimple")
+	n := 0
+	for _, c := range core.Calls(fn) {
+		call, ok := c.(*ssa.Call)
+		if !ok || !core.IsMethod(call, "reflect", "Value", "String") {
+			continue
+		}
+		n++
+		key := "FormatSimple: quoting of string members"
+		bad := ""
+		uses := 0
+		var visit func(v ssa.Value, d int)
+		visit = func(v ssa.Value, d int) {
+			if d > 6 || v.Referrers() == nil {
+				return
+			}
+			for _, ref := range *v.Referrers() {
+				switch u := ref.(type) {
+				case *ssa.MakeInterface:
+					visit(u, d+1)
+				case *ssa.ChangeType:
+					visit(u, d+1)
+				case *ssa.Store:
+					// element of a variadic argument array
+					if ia, ok := u.Addr.(*ssa.IndexAddr); ok {
+						for _, r2 := range *ia.X.Referrers() {
+							if sl, ok := r2.(*ssa.Slice); ok {
+								visit(sl, d+1)
+							}
+						}
+					} else {
+						bad = "the member's text is stored (" + core.Expr(u.Addr) + ") instead of being quoted in place"
+					}
+				case *ssa.Call:
+					uses++
+					switch {
+					case core.IsPkgFunc(u, "fmt", "Sprintf"):
+						f, isC := u.Call.Args[0].(*ssa.Const)
+						if !isC || f.Value == nil || constString(f) != "%q" {
+							bad = "the member's text is formatted with " + core.Expr(u.Call.Args[0]) + ", not %q: text that ParseSimple reads back unchanged only if it is put between the quotes as it is (e.g. %+q turns ä into \\u00e4, which the parser does not undo)"
+						}
+					case core.IsPkgFunc(u, "strconv", "Quote"):
+					default:
+						bad = "the member's text is passed to " + calleeKey(u) + ", which is not one of the quoting idioms known to be inverted by ParseSimple"
+					}
+				case *ssa.BinOp:
+					uses++
+					other := u.X
+					if other == v {
+						other = u.Y
+					}
+					if cst, isC := other.(*ssa.Const); !(u.Op == token.ADD && isC && cst.Value != nil && constString(cst) == "\"") {
+						visit(u, d+1)
+					}
+				case *ssa.DebugRef:
+				default:
+					bad = "the member's text is used by " + core.Expr(v) + " in a way the rule does not know"
+				}
+			}
+		}
+		visit(call, 0)
+		if uses == 0 && bad == "" {
+			bad = "the member's text is never quoted"
+		}
+		r.Check(bad == "", "R17.7", key, call.Pos(), "fmt.Sprintf(\"%q\", s) / strconv.Quote(s) / \"\\\"\" + s + \"\\\"\"", bad)
+	}
+	if n == 0 {
+		r.Unknown("R17.7", "FormatSimple: quoting of string members", fn.Pos(), "no reflect.Value.String() call found in FormatSimple")
+	}
+}
+
+// c17TagLastWins: R17.8.
+func c17TagLastWins(r *core.Run) {
+	p := r.Prog
+	fn := p.Func("dsn", "", "tagToField")
+	n := 0
+	bad := ""
+	var pos token.Pos
+	for _, b := range fn.Blocks {
+		for _, in := range b.Instrs {
+			mu, ok := in.(*ssa.MapUpdate)
+			if !ok {
+				continue
+			}
+			n++
+			for _, g := range core.GuardsAt(mu) {
+				var lk *ssa.Lookup
+				switch x := g.Cond.(type) {
+				case *ssa.Extract:
+					lk, _ = x.Tuple.(*ssa.Lookup)
+				}
+				if lk != nil && lk.CommaOk && lk.X == mu.Map {
+					bad = "a registration in the tag map is made only when the name is " + map[bool]string{true: "already", false: "not yet"}[g.Pol] + " present: in this mode the FIRST member registered under a name keeps it, in the other modes the last one does, so formatter (json map) and parser (multiref map) resolve a repeated name to different members"
+					pos = mu.Pos()
+				}
+			}
+		}
+	}
+	if n == 0 {
+		r.Unknown("R17.8", "tagToField: registrations are unconditional", fn.Pos(), "no map updates found")
+		return
+	}
+	if pos == token.NoPos {
+		pos = fn.Pos()
+	}
+	r.Check(bad == "", "R17.8", "tagToField: registrations are unconditional", pos, fmt.Sprintf("%d map updates, none conditional on the map's content", n), bad)
 }
